@@ -1,7 +1,7 @@
 from .csvcommon import *
 ID = "C04"
-FUNCTIONS = CSV_FUNCS
-ASSUMED = []
+FUNCTIONS = CSV_FUNCS + [TF + f for f in ("close", "__exit__", "__enter__")]
+ASSUMED = ["tinyflux.storages.Storage.close"]
 STANDIN = "standins/csvio.py"
 TRUSTED = IO_TRUSTED
 ASSUMPTIONS = ["A-single: one process, one TinyFlux object per file", "A-buf: one csv row fits the text/binary buffers, so bytes reach the disk only at flush/seek/close"]
